@@ -274,3 +274,15 @@ Proofs/ValueTables.vos Proofs/ValueTables.vok Proofs/ValueTables.required_vos: P
 Properties/C18b.vo Properties/C18b.glob Properties/C18b.v.beautified Properties/C18b.required_vo: Properties/C18b.v Model.vo Spec/Stack.vo Spec/Tables.vo Mon/C12.vo Mon/C18.vo Mon/C18b.vo Proofs/ValueTables.vo
 Properties/C18b.vio: Properties/C18b.v Model.vio Spec/Stack.vio Spec/Tables.vio Mon/C12.vio Mon/C18.vio Mon/C18b.vio Proofs/ValueTables.vio
 Properties/C18b.vos Properties/C18b.vok Properties/C18b.required_vos: Properties/C18b.v Model.vos Spec/Stack.vos Spec/Tables.vos Mon/C12.vos Mon/C18.vos Mon/C18b.vos Proofs/ValueTables.vos
+Spec/DenoteTests.vo Spec/DenoteTests.glob Spec/DenoteTests.v.beautified Spec/DenoteTests.required_vo: Spec/DenoteTests.v Model.vo Spec/Stack.vo Mon/C06.vo Mon/C19.vo
+Spec/DenoteTests.vio: Spec/DenoteTests.v Model.vio Spec/Stack.vio Mon/C06.vio Mon/C19.vio
+Spec/DenoteTests.vos Spec/DenoteTests.vok Spec/DenoteTests.required_vos: Spec/DenoteTests.v Model.vos Spec/Stack.vos Mon/C06.vos Mon/C19.vos
+Proofs/DenoteLogic.vo Proofs/DenoteLogic.glob Proofs/DenoteLogic.v.beautified Proofs/DenoteLogic.required_vo: Proofs/DenoteLogic.v Model.vo Spec/Stack.vo Proofs/Reach.vo Proofs/InvReg.vo Proofs/Trace.vo Proofs/InvNames.vo Proofs/DefUse.vo
+Proofs/DenoteLogic.vio: Proofs/DenoteLogic.v Model.vio Spec/Stack.vio Proofs/Reach.vio Proofs/InvReg.vio Proofs/Trace.vio Proofs/InvNames.vio Proofs/DefUse.vio
+Proofs/DenoteLogic.vos Proofs/DenoteLogic.vok Proofs/DenoteLogic.required_vos: Proofs/DenoteLogic.v Model.vos Spec/Stack.vos Proofs/Reach.vos Proofs/InvReg.vos Proofs/Trace.vos Proofs/InvNames.vos Proofs/DefUse.vos
+Proofs/ExtLeaves.vo Proofs/ExtLeaves.glob Proofs/ExtLeaves.v.beautified Proofs/ExtLeaves.required_vo: Proofs/ExtLeaves.v Model.vo Spec/Stack.vo Spec/Tables.vo Spec/Bracket.vo Mon/C19.vo Proofs/Reach.vo Proofs/InvReg.vo Proofs/Trace.vo Proofs/InvNames.vo Proofs/DefUse.vo Proofs/Fold.vo Proofs/InvTree.vo Proofs/DenoteLogic.vo
+Proofs/ExtLeaves.vio: Proofs/ExtLeaves.v Model.vio Spec/Stack.vio Spec/Tables.vio Spec/Bracket.vio Mon/C19.vio Proofs/Reach.vio Proofs/InvReg.vio Proofs/Trace.vio Proofs/InvNames.vio Proofs/DefUse.vio Proofs/Fold.vio Proofs/InvTree.vio Proofs/DenoteLogic.vio
+Proofs/ExtLeaves.vos Proofs/ExtLeaves.vok Proofs/ExtLeaves.required_vos: Proofs/ExtLeaves.v Model.vos Spec/Stack.vos Spec/Tables.vos Spec/Bracket.vos Mon/C19.vos Proofs/Reach.vos Proofs/InvReg.vos Proofs/Trace.vos Proofs/InvNames.vos Proofs/DefUse.vos Proofs/Fold.vos Proofs/InvTree.vos Proofs/DenoteLogic.vos
+Properties/C19.vo Properties/C19.glob Properties/C19.v.beautified Properties/C19.required_vo: Properties/C19.v Model.vo Spec/Stack.vo Spec/DenoteTests.vo Mon/C19.vo Proofs/ExtLeaves.vo
+Properties/C19.vio: Properties/C19.v Model.vio Spec/Stack.vio Spec/DenoteTests.vio Mon/C19.vio Proofs/ExtLeaves.vio
+Properties/C19.vos Properties/C19.vok Properties/C19.required_vos: Properties/C19.v Model.vos Spec/Stack.vos Spec/DenoteTests.vos Mon/C19.vos Proofs/ExtLeaves.vos
